@@ -157,6 +157,55 @@ func checkC13(e *core.Env) {
 			}
 		}
 	}
+	// one channel object whose base URL the application changes between calls (a fail-over from a plain back end
+	// to a TLS one and back; the transport serves both): every call is judged, and sent, by the URL the channel
+	// has at that moment
+	{
+		ch := &httpgrpc.Channel{Transport: tls.Transport, BaseURL: plain.URL}
+		for step, target := range []*Carrier{plain, tls, plain, tls} {
+			for _, stream := range []bool{false, true} {
+				caseNo++
+				if !e.Selected("base-url-switch", caseNo) {
+					continue
+				}
+				e.Begin("base-url-switch", caseNo, fmt.Sprintf("step=%d stream=%v", step, stream))
+				ch.BaseURL = target.URL
+				secureTarget := target == tls
+				kind := Unary
+				if stream {
+					kind = ServerStream
+				}
+				sc := genDeliveryScript(rand.New(rand.NewSource(int64(caseNo))), kind, true, false)
+				creds := &testCreds{secure: true, md: map[string]string{"cred-token": "t0k3n"}}
+				sc.ExtraOpts = []grpc.CallOption{grpc.PerRPCCredentials(creds)}
+				svc := target.Svc
+				run := svc.NewRun(sc, target.Name)
+				beforePlain, beforeTLS := plain.ReqCount.Load(), tls.ReqCount.Load()
+				ok, _ := run.Exec(ch, nil, watchdog)
+				run.Cancel()
+				svc.Forget(run)
+				if !ok {
+					run.ReleaseAll()
+					e.Inconclusive("C13 base-url-switch: watchdog")
+					continue
+				}
+				e.Eval(fmt.Sprintf("base-url-switch|step=%d|stream=%v", step, stream), true)
+				dPlain, dTLS := plain.ReqCount.Load()-beforePlain, tls.ReqCount.Load()-beforeTLS
+				out := run.ClientOutcome()
+				w := map[string]any{"step": step, "stream": stream, "base_url_now": target.URL.String(), "requests_to_plain": dPlain, "requests_to_tls": dTLS, "error": fmt.Sprint(out.Err)}
+				switch {
+				case secureTarget && dPlain != 0:
+					e.Violate("creds/request-issued/http/after-base-url-switch", "the channel's base URL is https now; a call with credentials that require transport security sent a request to the earlier plain-http address", w)
+				case !secureTarget && (dPlain != 0 || dTLS != 0):
+					e.Violate("creds/request-issued/http/after-base-url-switch", "the channel's base URL is plain http now; a call with credentials that require transport security issued a request all the same", w)
+				case !secureTarget && out.Seen && out.OK:
+					e.Violate("creds/success/http", "call succeeded over plain http although the credentials require transport security", w)
+				case secureTarget && (dTLS != 1 || !out.Seen || !out.OK):
+					e.Violate("creds/call-failed/https/after-base-url-switch", fmt.Sprintf("the channel's base URL is https now: %d requests reached the TLS server, outcome %v", dTLS, out.Err), w)
+				}
+			}
+		}
+	}
 	// an https front end that redirects to a plain-http address: credentials that require transport security
 	// never arrive there
 	{
